@@ -1,6 +1,7 @@
 import Driver.Util
 import I18nVerif.Model.Router
 import I18nVerif.Spec.Router
+import I18nVerif.Spec.RouterNested
 namespace Driver
 open Lean I18nVerif.Router
 
@@ -184,5 +185,66 @@ def opRouterPathBuilder (j : Json) : R Json := do
   let ps ← listF chars j "pushes"
   let b := PB.new.pushAll ps
   return jobj [("built", jstr b.build), ("segments", jarr ((Spec.segments b.build).map jstr))]
+
+/-! #### `I18nNestedRoute` (route matching): `Spec/RouterNested.lean` -/
+
+def jcand (c : Spec.Candidate) : Json :=
+  jarr [jopt jnat c.reports, jnat c.segmentsOf, jarr (c.rest.map jstr)]
+
+def pcand (j : Json) : R Spec.Candidate := do
+  match (← asArr j) with
+  | [r, s, rest] => return { reports := ← asOpt asNat r, segmentsOf := ← asNat s, rest := ← asList chars rest }
+  | _ => .error s!"bad candidate {j.compress}"
+
+/-- `{"locale": idx|null, "m": descriptor|null}`; `m = null`: no route matched -/
+def presult (j : Json) : R (Option (Option Nat × String)) := do
+  let m ← optF asStr j "m"
+  let l ← optF asNat j "locale"
+  return m.map (fun m => (l, m))
+
+def jresult : Option (Option Nat × String) → Json
+  | none => jobj [("locale", Json.null), ("m", Json.null)]
+  | some (l, m) => jobj [("locale", jopt jnat l), ("m", Json.str m)]
+
+/-- `{"op":"router.nested", names, path, base, cands: [[reports|null, segmentsOf, [rest]]] (the caller's own
+    computation, cross-checked), oracle: [descriptor|null per candidate] (what leptos_router answers for the plain tree
+    of that candidate's locale on its segments), impl: null (panicked) | {"locale": idx|null, "m": descriptor|null}}` -/
+def opRouterNested (j : Json) : R Json := do
+  let names ← listF chars j "names"
+  let path ← charsF j "path"
+  let base ← charsF j "base"
+  let mirror ← listF pcand j "cands"
+  let oracle ← listF (asOpt asStr) j "oracle"
+  let impl ← optF presult j "impl"
+  let cands := Spec.routeCandidates names path base
+  let cs := cands.getD []
+  if oracle.length != cs.length then .error s!"oracle answers {oracle.length} for {cs.length} candidates"
+  let table := cs.zip oracle
+  let serves (c : Spec.Candidate) : Option String := (table.find? (fun e => e.1 == c)).bind (·.2)
+  let expected := Spec.expectedMatch cands serves
+  return jobj [("under_base", jbool cands.isSome), ("cands", jarr (cs.map jcand)), ("mirror_ok", jbool (mirror == cs)),
+    ("first", jopt jstr ((Spec.afterBase path base).bind List.head?)),
+    ("expected", jresult expected),
+    ("spec_ok_impl", jopt (fun r => jbool (Spec.nestedRouteOk cands serves r)) impl),
+    ("locale_ok_impl", jopt (fun r => jbool (Spec.reportedLocaleOk names path base (r.bind (·.1)))) impl)]
+
+def jpseg : PSeg → Json
+  | .unit => jarr [Json.str "u"]
+  | .static v => jarr [Json.str "s", jstr v]
+  | .param v => jarr [Json.str "p", jstr v]
+  | .optional v => jarr [Json.str "o", jstr v]
+  | .splat v => jarr [Json.str "w", jstr v]
+
+def jtables (t : Tables) : Json := jarr (t.map (fun r => jarr (r.map jpseg)))
+
+/-- `{"op":"router.tables", names, tables: [tables of locale 0, of locale 1, ...], routes: tables}`: the hypothesis
+    `compatTables` of the switching theorems on every pair of generated tables, and the N + 1 families -/
+def opRouterTables (j : Json) : R Json := do
+  let names ← listF chars j "names"
+  let ts ← listF ptables j "tables"
+  let routes ← ptables (← field j "routes")
+  if ts.length != names.length then .error "one table per locale expected"
+  let fam := Spec.familiesOf names ts
+  return jobj [("compat", jbool (Spec.allCompat ts)), ("families_ok", jbool (routes == fam)), ("families", jtables fam)]
 
 end Driver
